@@ -120,7 +120,27 @@ pub fn programs(tier: Tier) -> ProgramSet {
             }
         }
     }
-    ProgramSet { programs: finish(out), excluded: Default::default(), bounds: json!({"N_max": nmax, "disabled_subsets": "all 2^N", "k_max": k}) }
+    // SCALE: large field-less and mixed enums
+    for (n, mixed, dis) in [(9usize, false, false), (17, false, true), (33, true, false), (40, false, false), (257, false, true), (256, false, false), (300, false, false)] {
+        let mut spec = EnumSpec::base(0);
+        for i in 0..n {
+            let mut v = VariantSpec::unit(&format!("Var{}Name", i));
+            if dis && i % 6 == 2 {
+                v.disabled = true;
+            }
+            if mixed && i % 5 == 1 {
+                v.kind = Kind::Tuple(vec![FieldTy::U8]);
+            }
+            if i % 9 == 4 {
+                v.to_string = Some(format!("name-{}", i));
+            }
+            spec.variants.push(v);
+        }
+        spec.serialize_all = Some("kebab-case".into());
+        let source = render(&spec);
+        out.push(Program { idx: 0, label: format!("SCALE: {} variants{}{}", n, if mixed { ", mixed kinds" } else { "" }, if dis { ", some disabled" } else { "" }), k: 1, spec, aux: json!(null), source });
+    }
+    ProgramSet { programs: finish(out), excluded: Default::default(), bounds: json!({"N_max": nmax, "disabled_subsets": "all 2^N", "k_max": k, "scale_N": [9, 17, 33, 40, 256, 257, 300]}) }
 }
 
 fn fieldless(spec: &EnumSpec) -> bool {
@@ -141,7 +161,7 @@ pub fn render(spec: &EnumSpec) -> String {
     use strum::IntoEnumIterator;
     let count = <EC as strum::EnumCount>::COUNT;
     let names: Vec<String> = <EC as strum::VariantNames>::VARIANTS.iter().map(|s| s.to_string()).collect();
-    let iter: Result<Vec<usize>, String> = vf_core::guard(|| EC::iter().take(64).map(|v| vidx(&v)).collect());
+    let iter: Result<Vec<usize>, String> = vf_core::guard(|| EC::iter().take(1024).map(|v| vidx(&v)).collect());
     let nth: Result<Vec<Option<usize>>, String> = vf_core::guard(|| (0..count + 1).map(|i| EC::iter().nth(i).map(|v| vidx(&v))).collect());
 "#,
     );
